@@ -1579,3 +1579,65 @@ example : GoodS (runX ⟨[], []⟩ [.base (.new [(0, ⟨.i64, [3, 1, 2]⟩)]), .
   c16_refines_shared c16_good_init.toGoodS _ (by decide)
 example : C16.rowAt ⟨2, [(0, ⟨.i64, [3, 1]⟩), (1, ⟨.f32, [10, 11]⟩)]⟩ 1 = [(0, some 1), (1, some 11)] := by decide
 example : isPerm [1, 2, 0] 3 = true ∧ [1, 2, 0].Perm (List.range 3) := ⟨by decide, c16_isPerm_perm _ _ (by decide)⟩
+
+/-! ### round 3: which fields `tidy_up` / `copy(keep_fields)` keep
+
+`keep_fields` is a set of *names* (a single `str` stands for that one name): a field is kept iff its name is one of them —
+never because its name is a substring of a kept name. -/
+
+/-- **`tidy_up` keeps exactly the named fields**: the columns of the result are the columns whose name is in `keep`, in
+their order, with their values; the row count is unchanged. -/
+theorem c16_tidyUp_keeps_named (ts : List Table) (c : Nat) (keep : List Name) (t : Table) (ht : ts[c]? = some t) :
+    stepT ts (.tidyUp c keep) = (ts.set c ⟨t.len, t.cols.filter fun p => keep.contains p.1⟩, .ok .unit) := by
+  have hg : getT ts c = .ok t := by simp [getT, ht]
+  unfold stepT
+  simp [tableOp, hg, bind, Except.bind, pure, Except.pure, Upd.table, keepAll_table]
+
+theorem C16.filter_single_keys (n : Name) : ∀ (cols : List (Name × Col)), (cols.map (·.1)).Nodup →
+    (cols.filter fun p => [n].contains p.1).map (·.1) = if n ∈ cols.map (·.1) then [n] else [] := by
+  intro cols
+  induction cols with
+  | nil => intro _; simp
+  | cons p cols ih =>
+    intro hk
+    simp only [List.map_cons, List.nodup_cons] at hk
+    have ih' := ih hk.2
+    by_cases hp : p.1 = n
+    · subst hp
+      rw [if_neg hk.1] at ih'
+      have hc : [p.1].contains p.1 = true := by simp
+      rw [List.filter_cons, if_pos hc, List.map_cons, ih', if_pos (by simp)]
+    · have hc : [n].contains p.1 = false := by simp [hp]
+      have hiff : (n ∈ p.1 :: cols.map (·.1)) ↔ n ∈ cols.map (·.1) := by
+        constructor
+        · intro h
+          rcases List.mem_cons.mp h with h | h
+          · exact (hp h.symm).elim
+          · exact h
+        · exact List.mem_cons_of_mem _
+      simp only [List.filter_cons, hc, Bool.false_eq_true, if_false, List.map_cons, ih']
+      by_cases hm : n ∈ cols.map (·.1)
+      · rw [if_pos hm, if_pos (hiff.mpr hm)]
+      · rw [if_neg hm, if_neg (fun h => hm (hiff.mp h))]
+
+/-- a single name: exactly that field survives (if it exists), whatever the other names look like -/
+theorem c16_tidyUp_single (ts : List Table) (c : Nat) (n : Name) (t : Table) (ht : ts[c]? = some t) (hwf : WF t) :
+    ∃ t', (stepT ts (.tidyUp c [n])).1[c]? = some t' ∧ t'.len = t.len ∧
+      t'.keys = (if n ∈ t.keys then [n] else []) := by
+  rw [c16_tidyUp_keeps_named ts c [n] t ht]
+  have hc : c < ts.length := (List.getElem?_eq_some_iff.mp ht).1
+  exact ⟨⟨t.len, t.cols.filter fun p => [n].contains p.1⟩, List.getElem?_set_self hc, rfl,
+    C16.filter_single_keys n t.cols hwf.1⟩
+
+/-- **`copy(keep_fields)` copies exactly the named fields** (and all of them for `keep_fields=None`) -/
+theorem c16_copy_keeps_named (ts : List Table) (c : Nat) (keep : List Name) (t : Table) (ht : ts[c]? = some t) :
+    stepT ts (.copy c (some keep)) =
+      (ts ++ [⟨if (t.cols.filter fun p => keep.contains p.1).isEmpty then 0 else t.len, t.cols.filter fun p => keep.contains p.1⟩],
+       .ok (.cont ts.length)) := by
+  have hg : getT ts c = .ok t := by simp [getT, ht]
+  unfold stepT
+  simp only [tableOp, hg, bind, Except.bind, pure, Except.pure, Upd.table, freshAll_table, copyCols]
+  congr
+
+example : (stepT [⟨2, [(0, ⟨.i64, [1, 2]⟩), (1, ⟨.f32, [3, 4]⟩), (4, ⟨.f64, [5, 6]⟩)]⟩] (.tidyUp 0 [4])).1 =
+    [⟨2, [(4, ⟨.f64, [5, 6]⟩)]⟩] := by decide
